@@ -21,4 +21,6 @@ let table : (Stdlib.String.t * (z list -> z list)) list = [
   "c04s", c04s_entry;
   "c06", c06_entry;
   "c14", c14_entry;
+  "c13", c13_entry;
+  "c13b", c13_entry;
 ]
